@@ -340,8 +340,11 @@ impl World
             Op::Edit { leaf, content } =>
             {
                 let l = self.leaves[gen::pick(*leaf, self.leaves.len())].clone();
-                self.set_leaf(&l, CONTENT_POOL[*content as usize % 5].as_bytes().to_vec());
-                Applied::UserAction(format!("edit {}", l))
+                if super::model::under_missing_dir(&self.model.missing_dirs, &l) { Applied::Noop } else
+                {
+                    self.set_leaf(&l, CONTENT_POOL[*content as usize % 5].as_bytes().to_vec());
+                    Applied::UserAction(format!("edit {}", l))
+                }
             }
             Op::Revert { leaf } =>
             {
@@ -350,8 +353,8 @@ impl World
                 let prev = self.leaf_history.get(&l).and_then(|h| h.iter().rev().find(|c| Some(*c) != cur.as_ref()).cloned());
                 match prev
                 {
-                    Some(p) => { self.set_leaf(&l, p); Applied::UserAction(format!("revert {}", l)) }
-                    None => Applied::Noop,
+                    Some(p) if !super::model::under_missing_dir(&self.model.missing_dirs, &l) => { self.set_leaf(&l, p); Applied::UserAction(format!("revert {}", l)) }
+                    _ => Applied::Noop,
                 }
             }
             Op::Swap { a, b } =>
@@ -360,7 +363,7 @@ impl World
                 let lb = self.leaves[gen::pick(*b, self.leaves.len())].clone();
                 match (self.model.files.get(&la).cloned(), self.model.files.get(&lb).cloned())
                 {
-                    (Some(ca), Some(cb)) if la != lb && ca != cb =>
+                    (Some(ca), Some(cb)) if la != lb && ca != cb && !super::model::under_missing_dir(&self.model.missing_dirs, &la) && !super::model::under_missing_dir(&self.model.missing_dirs, &lb) =>
                     {
                         self.set_leaf(&la, cb);
                         self.set_leaf(&lb, ca);
@@ -596,18 +599,24 @@ impl World
             {
                 let ts = self.model.all_targets();
                 let p = ts[gen::pick(*t, ts.len())].clone();
-                self.sys.h_write(&p, CONTENT_POOL[*content as usize % 5].as_bytes());
-                Applied::UserAction(format!("tamper {}", p))
+                if super::model::under_missing_dir(&self.model.missing_dirs, &p) { Applied::Noop } else
+                {
+                    self.sys.h_write(&p, CONTENT_POOL[*content as usize % 5].as_bytes());
+                    Applied::UserAction(format!("tamper {}", p))
+                }
             }
             Op::TamperOld { t, content } =>
             {
                 // a distinct write that happened in the past: its own, never reused, old modification time
                 let ts = self.model.all_targets();
                 let p = ts[gen::pick(*t, ts.len())].clone();
-                self.old_stamps += 1;
-                let mtime = super::vsys::EPOCH_US - 1_000_000 - self.old_stamps;
-                self.sys.h_write_at(&p, CONTENT_POOL[*content as usize % 5].as_bytes(), mtime);
-                Applied::UserAction(format!("replace {} by an older file", p))
+                if super::model::under_missing_dir(&self.model.missing_dirs, &p) { Applied::Noop } else
+                {
+                    self.old_stamps += 1;
+                    let mtime = super::vsys::EPOCH_US - 1_000_000 - self.old_stamps;
+                    self.sys.h_write_at(&p, CONTENT_POOL[*content as usize % 5].as_bytes(), mtime);
+                    Applied::UserAction(format!("replace {} by an older file", p))
+                }
             }
             Op::DeleteTarget { t } =>
             {
@@ -633,6 +642,33 @@ impl World
                     let p = l[gen::pick(*k, l.len())].clone();
                     self.sys.h_remove(&p);
                     Applied::UserAction(format!("delete history file {}", p))
+                }
+            }
+            Op::RemoveDir { d } =>
+            {
+                let present: Vec<String> = self.model.dirs.iter().filter(|x| !self.model.missing_dirs.contains(*x)).cloned().collect();
+                if present.is_empty() { Applied::Noop } else
+                {
+                    let dir = present[gen::pick(*d, present.len())].clone();
+                    self.sys.h_remove(&dir);
+                    let gone: Vec<String> = self.model.files.keys().filter(|k| k.starts_with(&format!("{}/", dir))).cloned().collect();
+                    for k in gone
+                    {
+                        if let Some(old) = self.model.files.remove(&k) { self.leaf_history.entry(k).or_default().push(old); }
+                    }
+                    self.model.missing_dirs.insert(dir.clone());
+                    Applied::UserAction(format!("remove directory {}", dir))
+                }
+            }
+            Op::MakeDir { d } =>
+            {
+                let missing: Vec<String> = self.model.missing_dirs.iter().cloned().collect();
+                if missing.is_empty() { Applied::Noop } else
+                {
+                    let dir = missing[gen::pick(*d, missing.len())].clone();
+                    self.sys.h_mkdir_all(&dir);
+                    self.model.missing_dirs.remove(&dir);
+                    Applied::UserAction(format!("make directory {}", dir))
                 }
             }
             Op::DeleteRulerDir => if self.sys.h_remove(RULER_DIR) { Applied::UserAction("delete ruler dir".into()) } else { Applied::Noop },
